@@ -20,13 +20,41 @@ def run(cases, nproc=16, chunksize=200, hooks=False):
     """cases: list of (id, prog, lines).  Returns (traces, extras_by_id)."""
     if not cases:
         return [], {}
+    res = []
     with mp.Pool(nproc) as pool:
-        res = pool.map(_one_hooks if hooks else _one, cases, chunksize=chunksize)
+        # in batches: once many assemblies have hit the watchdog (a hang introduced by a change), the rest of the suite is
+        # not run - the hangs already seen are the result, and the check must still end in reasonable time
+        global HANGS_SEEN
+        B = 400 if not HANGS_SEEN else 160
+        hung = 0
+        for a in range(0, len(cases), B):
+            if hung > 12 or (HANGS_SEEN and a >= B):
+                HANGS_SEEN = True
+                break
+            part = pool.map(_one_hooks if hooks else _one, cases[a:a + B], chunksize=min(chunksize, 100))
+            hung += sum(1 for t, _ in part if t["outcome"] == "timeout")
+            res.extend(part)
+    cases = cases[:len(res)]
+    # a bare watchdog timeout is re-run once, alone, with a 30 s limit before it is believed (machine load must not become an alarm)
+    res = list(res)
+    global CONFIRMED
+    for k, (t, x) in enumerate(res):
+        if t["outcome"] == "timeout" and CONFIRMED < 2:       # after two confirmed hangs the rest are taken as observed
+            tid, prog, lines = cases[k]
+            rec = asmio.assemble(list(lines), timeout=20, hooks=hooks)
+            t2 = asmio.trace_of(tid, prog, lines, rec)
+            if t2["outcome"] == "timeout":
+                CONFIRMED += 1
+            else:
+                res[k] = (t2, {"exc": rec["exc"], "site": rec["site"], "msg": rec["msg"], "adapter": rec["adapter"], "input_intact": rec["input_intact"],
+                               "hooks": rec["hooks"], "name": rec["name"]})
     traces = [t for t, _ in res]
     extras = {t["id"]: x for t, x in res}
     return traces, extras
 
 
+HANGS_SEEN = False
+CONFIRMED = 0
 NOP = asmio.stmt("NOP")
 
 
